@@ -172,6 +172,7 @@ def walk (c : SeqCase) : Track → List Op → List Res → Nat → Verdict × T
             | .err .methodCalledAlready, _ => "call-object-sent-twice"
             | .none, _ => "iteration-did-not-end-after-the-final-reply"
             | _, .none => "iteration-ended-early"
+            | .ok _, .ok _ => "value-returned-is-not-the-reply-the-service-sent-for-this-call"
             | .err .badJson, .ok _ => "unterminated-or-malformed-reply-reported-as-success"
             | .err .connectionClosed, .ok _ => "end-of-stream-reported-as-success"
             | .ok _, .err _ => "successful-reply-reported-as-error"
